@@ -180,6 +180,11 @@ func (t *termer) term(v ssa.Value, d int) string {
 	case *ssa.Extract:
 		return t.term(v.Tuple, d+1) + "#" + fmt.Sprint(v.Index)
 	case *ssa.Call:
+		// a normaliser of caller-supplied options returns "the same options, with nil sets made empty": rules speak of
+		// the options, so its result is printed as its argument
+		if sc := v.Call.StaticCallee(); sc != nil && termIdentityFuncs[sc.String()] && len(v.Call.Args) == 1 {
+			return t.term(v.Call.Args[0], d+1)
+		}
 		return t.call(v.Common(), d)
 	case *ssa.Phi:
 		if b, ok := loopIndex(v); ok {
@@ -416,4 +421,9 @@ func singleStoreValue(al *ssa.Alloc) ssa.Value {
 		return stored
 	}
 	return nil
+}
+
+// termIdentityFuncs: module functions whose result stands for their argument in terms (confirmed by reading).
+var termIdentityFuncs = map[string]bool{
+	"github.com/karagenc/socket.io-go/adapter.normalizeBroadcastOptions": true,
 }
